@@ -118,8 +118,14 @@ def r2(ctx):
             gt += te
         if o["op"] == "Le" and ACK in a0 and "field:" + T + "snd_nxt" in a1:
             le += te
+    ACK_ = "field:turmoil_net::kernel::packet::TcpSegment::ack"
+    gtp = lambda o: o["k"] == "bin" and o["op"] == "Gt" and ACK_ in Slicer(ctx.w).atoms(b, o["a"]) and all(x.startswith("const:") for x in Slicer(ctx.w).atoms(b, o["b"]))
+    lep = lambda o: o["k"] == "bin" and o["op"] == "Le" and ACK_ in Slicer(ctx.w).atoms(b, o["a"]) and "field:" + T + "snd_nxt" in Slicer(ctx.w).atoms(b, o["b"])
     for bb, t in sp:
         ok = bool(gt) and bool(le) and b.dominated_by_any(bb, edges=gt) and b.dominated_by_any(bb, edges=le)
+        if not ok:
+            # the two tests may be folded into a flag (`let advanced = acked > 0 && acked <= in_flight; if advanced { .. }`)
+            ok = guarded_by_pred(b, bb, gtp) and guarded_by_pred(b, bb, lep)
         at = Slicer(ctx.w).atoms(b, t["args"][1]) if len(t["args"]) > 1 else set()
         ok2 = "field:turmoil_net::kernel::packet::TcpSegment::ack" in at and "field:" + T + "snd_una" in at
         ctx.inst(R, f"ack:trim-{t['f'].rsplit('::', 1)[1]}", ok and ok2, t["s"], "send_buf trimmed only by a valid cumulative ACK, by the acknowledged amount" if ok and ok2 else
@@ -340,7 +346,7 @@ def r9(ctx):
                 continue
             if not any(pr.dominated_by_edge(x, (sbb, s2)) for x in em for s2 in pr.succ(sbb)):
                 continue
-            at = Slicer(ctx.w).atoms(pr, t["d"])
+            at = Slicer(ctx.w, control=True).atoms(pr, t["d"])   # `n >= cap / 2 && ..` is a control dependence of the flag
             if any(a.startswith("arg:4:") for a in at) and "field:" + T + "recv_buf" in at:
                 dep = pr.term(sbb).get("s") or pr.span
         okb = bool(em) and dep is None
@@ -495,7 +501,34 @@ def r12(ctx):
     ctx.floor(R, 1)
 
 
+def r15(ctx):
+    R = "C06-R15"
+    ctx.rule(R, "nothing is sent for a direction that is finished: once the peer's FIN is in (Tcb::peer_fin) no more bytes can arrive, so the "
+                "window update poll_recv emits after a large read has no addressee - the peer may have closed and forgotten the connection (the "
+                "passive closer keeps no TIME-WAIT in any TCP) and answers with a RST, which wipes the bytes still unread here and turns EOF into "
+                "ConnectionReset. The decision to emit in poll_recv must therefore depend on Tcb::peer_fin")
+    pr = ctx.body(R, "turmoil_net::kernel::tcp::poll_recv")
+    if not pr:
+        return
+    PF = "field:turmoil_net::kernel::socket::Tcb::peer_fin"
+    n = 0
+    for bb, t in pr.calls(re.compile(r"^turmoil_net::kernel::tcp::emit$|^turmoil_net::kernel::tcp::emit_ack$")):
+        n += 1
+        ok = False
+        for sbb, tt in switch_blocks(pr):
+            if len(pr.succ(sbb)) < 2 or not any(pr.dominated_by_edge(bb, (sbb, x)) for x in pr.succ(sbb)):
+                continue
+            if PF in Slicer(ctx.w).atoms(pr, tt["d"]):
+                ok = True
+        ctx.inst(R, f"poll_recv:window-update-needs-open-direction#{n}", ok, t["s"], "no window update once the peer's FIN has arrived" if ok else
+                 "poll_recv emits its window update without looking at Tcb::peer_fin: after both FINs a reader that drains a large buffer in pieces "
+                 "pokes a peer that has already forgotten the connection, gets a RST back and loses the bytes it had not read yet (ConnectionReset instead of data + EOF) - with no fault at all")
+    ctx.inst(R, "poll_recv:emission-found", n >= 1, pr.span, f"{n} emission(s) analysed" if n else "poll_recv no longer emits a window update: re-derive")
+    ctx.floor(R, 2)
+
+
 def run(ctx):
+    r15(ctx)
     C13.r10(ctx, R="C06-R14")   # a connection with unacknowledged data / FIN never leaves the states that are retransmitted
     r13(ctx)
     r12(ctx)
@@ -512,3 +545,4 @@ def run(ctx):
     r7(ctx)
     from . import C16
     C16.r5(ctx)     # the window a host advertises reflects its *receive* buffer (a wrong window stalls both directions)
+    C16.r7(ctx)     # the window a host believes in is never older than what it already processed (a stale zero is never corrected: no persist timer)
